@@ -7,7 +7,7 @@
     explicit panic of the Go code is an explicit [Panic "<function>: <kind>"]; Go [int] is 64 bit,
     the wrap is written where a URL value can reach it ([i64]).  Library functions are in UrlStr.v. *)
 From Coq Require Import Ascii String List ZArith Lia Bool Floats.
-From Verif Require Import GoSem UrlStr.
+From Verif Require Import GoSem UrlStr UrlFixes.
 
 Definition sapp (a b : string) : string := String.append a b.
 Infix "+++" := sapp (at level 60, right associativity).
@@ -89,6 +89,9 @@ Definition sc_utc (e : sc) (val : string) : Z * sc :=
     else (lenZ vals, e1)
   end.
 
+Section WithFixes.
+Variable fx : fixes.
+
 (** ** ParseSegStatusCodes *)
 Record ssc := { sc_cycle : Z; sc_rsq : Z; sc_code : Z; sc_reps : list string }.
 Definition ssc0 : ssc := {| sc_cycle := 0; sc_rsq := 0; sc_code := 0; sc_reps := [] |}.
@@ -126,6 +129,7 @@ Fixpoint ssc_groups (groups : list string) (e : sc) (acc : list ssc) : list ssc 
     | inr e1 => ([], e1)
     | inl (c, e1) =>
       let e2 := if sc_cycle c <=? 0 then Some "cycle is too small" else e1 in
+      let e2 := if fx_status_cycle fx && (2147483647 <? sc_cycle c) then Some "cycle is too big" else e2 in
       let e3 := if sc_rsq c <? 0 then Some "rsq is too small" else e2 in
       let e4 := if (sc_code c <? 400) || (599 <? sc_code c) then Some "code is not in range 400-599" else e3 in
       ssc_groups t e4 (c :: acc)
@@ -171,7 +175,13 @@ Fixpoint loss_loop (s : string) (state dur : Z) (acc : list (Z * Z)) : option (l
       end
     end
   end.
-Definition create_loss_itvls (pattern : string) : option (list (Z * Z)) := loss_loop pattern 0 0 [].
+Definition cycle_dur (l : list (Z * Z)) : Z := fold_left (fun d it => i64 (d + fst it)) l 0.
+
+Definition create_loss_itvls (pattern : string) : option (list (Z * Z)) :=
+  match loss_loop pattern 0 0 [] with
+  | Some li => if fx_loss fx && (cycle_dur li <=? 0) then None else Some li
+  | None => None
+  end.
 
 Fixpoint all_loss_loop (pats : list string) (acc : list (list (Z * Z))) : option (list (list (Z * Z))) :=
   match pats with
@@ -192,8 +202,6 @@ Definition sc_parse_loss (e : sc) (key val : string) : list (list (Z * Z)) * sc 
             | None => ([], Some (key_err key))
             end
   end.
-
-Definition cycle_dur (l : list (Z * Z)) : Z := fold_left (fun d it => i64 (d + fst it)) l 0.
 
 Fixpoint state_loop (l : list (Z * Z)) (rest : Z) : Z :=
   match l with
@@ -220,7 +228,8 @@ Fixpoint query_loop (pairs : list string) (m : list (string * list string)) (e :
   | p :: t =>
     match split_on "="%char p with
     | [k; v] => query_loop t (q_add m k v) e
-    | [_] => Panic "app.(*strConvAccErr).ParseQuery: index out of range"
+    | [_] => if fx_annexI fx then query_loop t m (Some "invalid query pair")
+             else Panic "app.(*strConvAccErr).ParseQuery: index out of range"
     | _ => query_loop t m (Some "invalid query pair")
     end
   end.
@@ -351,7 +360,8 @@ Definition apply_key (u : ukey) (key val : string) (nowMS : Z) (c : cfg) (e : sc
   | K_stoprel =>
     let '(p, e1) := sc_atoi_ptr e key val in
     match p with
-    | None => KPanic "app.processURLCfg: nil dereference"
+    | None => if fx_stoprel fx then KErr (match e1 with Some m => m | None => "" end)
+              else KPanic "app.processURLCfg: nil dereference"
     | Some v => KCont (set_addLocation (set_stopS (Some (i64 (v + ms2S nowMS))) c)) e1
     end
   | K_dur => KCont c (snd (sc_atoi e key val))
@@ -422,7 +432,10 @@ Definition max_tsbd : Z := 48 * 3600.
 (** verifyAndFillConfig *)
 Definition verify_and_fill (c : cfg) (nowMS : Z) : res cfg :=
   if nowMS <? 0 then Err "nowMS must be >= 0"
+  else if fx_snr fx && match c_startNr c with Some n => maxu32 <? n | None => false end
+  then Err "snr must be below 2^32"
   else if c_segTimelineNr c && c_segTimeline c then Err "cannot be used at same time"
+  else if fx_subsdur fx && (c_subsDurMS c <=? 0) then Err "timesubsdur must be > 0"
   else if (c_subsRegion c <? 0) || (1 <? c_subsRegion c) then Err "timesubsreg number must be 0 or 1"
   else if match c_mup c with Some m => m <=? 0 | None => false end then Err "minimumUpdatePeriod must be > 0"
   else
@@ -430,6 +443,8 @@ Definition verify_and_fill (c : cfg) (nowMS : Z) : res cfg :=
               then set_ltgt (Some 3500) c else c in
     if match c_tsbd c1 with Some t => (t <? 0) || (max_tsbd <? t) | None => false end
     then Err "timeShiftBufferDepth"
+    else if fx_periods fx && match c_pph c1 with Some n => (n <=? 0) || (3600 <? n) | None => false end
+    then Err "periods per hour must be in the range 1-3600"
     else if c_contMulti c1 && match c_pph c1 with None => true | Some _ => false end
     then Err "period continuity set, but not multiple periods per hour"
     else if match c_scte35 c1 with Some n => negb ((n =? 1) || (n =? 2) || (n =? 3)) | None => false end
@@ -455,3 +470,5 @@ Definition process_url_cfg (path : string) (nowMS : Z) : res cfg :=
     else do c1 <- verify_and_fill c nowMS;
          Ok (set_contentIdx idx c1)
   end.
+
+End WithFixes.
